@@ -199,3 +199,54 @@ Qed.
 
 Lemma shipped_gtok : forallb (fun e => gtok_ok (snd e)) PidDescs.all = true.
 Proof. vm_compute. reflexivity. Qed.
+
+(* ---------------------------------------------------------------- InflateMessage is stateless *)
+Lemma fields_with_ext vis vis' fs :
+  (forall x, In x fs -> forall st, vis x st = vis' x st) ->
+  forall st, fields_with vis fs st = fields_with vis' fs st.
+Proof.
+  induction fs as [|x r IH]; intros H st; cbn [fields_with]; [reflexivity|].
+  rewrite (H x (or_introl eq_refl)). destruct (vis' x st) as [|ms st1]; [reflexivity|].
+  rewrite (IH (fun y Hy => H y (or_intror Hy))). reflexivity.
+Qed.
+Lemma loop_with_ext b b' : (forall st, b st = b' st) -> forall k st, loop_with b k st = loop_with b' k st.
+Proof.
+  intros H. induction k as [|k IH]; intros st; cbn [loop_with]; [reflexivity|].
+  rewrite H. destruct (b' st) as [|ms st1]; [reflexivity|]. now rewrite IH.
+Qed.
+(* a fixed-size field never looks at m_variable_field_size *)
+Lemma visit_fixed_indep bs v v' f : fixed_size f = true -> forall st, visit bs v f st = visit bs v' f st.
+Proof.
+  induction f as [| | | | | |mn mx|mn mx fs IH] using fd_ind'; intros Hf st; try reflexivity.
+  - cbn [fixed_size] in Hf. cbn [visit]. now rewrite Hf.
+  - rewrite !visit_group, Hf. unfold visit_loop.
+    rewrite fixed_group in Hf. apply andb_prop in Hf as [Hf _].
+    apply loop_with_ext. intros st'. apply fields_with_ext. intros x Hx st''.
+    rewrite Forall_forall in IH. apply IH; [assumption|].
+    rewrite forallb_forall in Hf. now apply Hf.
+Qed.
+Lemma calc_fixed_all n fs : calc n fs = FixedSz -> forall f, In f fs -> fixed_size f = true.
+Proof.
+  unfold calc. intros H.
+  destruct (n <? _); [discriminate|].
+  destruct (1 <? _); [discriminate|].
+  destruct (len (filter is_var_string fs) + len (filter is_var_group fs) =? 0) eqn:E0.
+  - apply N.eqb_eq in E0. intros f Hin. destruct (fixed_size f) eqn:Ef; [reflexivity|exfalso].
+    destruct (var_cases f Ef) as (_ & [[E1 _]|[_ E1]]).
+    + assert (In f (filter is_var_string fs)) as X by (apply filter_In; auto).
+      destruct (filter is_var_string fs); [contradiction|rewrite len_cons in E0; lia].
+    + assert (In f (filter is_var_group fs)) as X by (apply filter_In; auto).
+      destruct (filter is_var_group fs); [contradiction|rewrite len_cons in E0; lia].
+  - exfalso. clear E0.
+    destruct (filter is_var_string fs) as [|[] ?]; try discriminate.
+    + destruct (filter is_var_group fs) as [|[] ?]; try discriminate.
+      repeat match type of H with context [if ?c then _ else _] => destruct c end; discriminate.
+    + repeat match type of H with context [if ?c then _ else _] => destruct c end; discriminate.
+Qed.
+Lemma inflate_stateless prev prev' fs bs : inflate prev fs bs = inflate prev' fs bs.
+Proof.
+  unfold inflate. destruct (calc (len bs) fs) eqn:E; try reflexivity.
+  assert (forall st, visit_fields bs prev fs st = visit_fields bs prev' fs st) as ->; [|reflexivity].
+  intros st. unfold visit_fields. apply fields_with_ext. intros x Hx st'.
+  apply visit_fixed_indep. exact (calc_fixed_all _ _ E x Hx).
+Qed.
